@@ -1725,10 +1725,11 @@ def run_pipeline(prop, tier, v, quick):
                             records.append(run_.finish(drained, goal=False))
             cov["c02_prepake_cases"] = npre
             cov["c02_prepake_reordered"] = nok
-        if prop in ("C03", "C09", "C18"):
+        if prop in ("C03", "C09", "C18", "C14"):
+            # (C14: "reordered delivery" is conformant server behaviour - every arrival order of version + 3 messages, once each)
             import itertools
             fam = []
-            for n_ in ((2, 3, 4) if prop != "C18" else (3,)):
+            for n_ in ((2, 3, 4) if prop not in ("C18", "C14") else (3,)):
                 for perm in itertools.permutations(range(n_ + 1)):
                     fam.append((n_, perm))
             # more than ten messages: two-digit phases, the late ones overtaking the early ones
@@ -1738,10 +1739,10 @@ def run_pipeline(prop, tier, v, quick):
             frng = random.Random(seed * 31 + 3)
             if quick and len(fam) > 60:
                 fam = fam[:30] + frng.sample(fam[30:], 30)
-            fam = fam + (fam_long if prop != "C18" else [])
+            fam = fam + (fam_long if prop not in ("C18", "C14") else [])
             nperm = 0
             for (n_, perm) in fam:
-                for reconnect in ((None, frng.randrange(0, n_ + 1), "lazy") if prop != "C18" else (None,)):
+                for reconnect in ((None, frng.randrange(0, n_ + 1), "lazy") if prop not in ("C18", "C14") else (None,)):
                     tid += 1
                     try:
                         run_, goal, drained, ok = c03_case(tid, n_, list(perm), None if reconnect == "lazy" else reconnect, frng,
@@ -1821,6 +1822,22 @@ def run_pipeline(prop, tier, v, quick):
                         records.append(run_.finish(drained, goal=False))
             cov["c18_raise_cases"] = n
         if prop == "C18":
+            # the whole stack: the same applications on two wormholes whose Dilation layer is busy (witness behaviours of
+            # DilationL3.tla); the applications' events and their outstanding / late get_*() calls judged as everywhere else
+            import types
+            from . import dil_full
+            fam, goals_ = dil_full.app_events_family(wd, prop, quick, seed)
+            nfs = 0
+            for mrec, info in fam:
+                if mrec is None:
+                    cov.setdefault("family_errors", []).append("full-stack %s: %s" % (info.get("goal"), info.get("error")))
+                    continue
+                nfs += 1
+                runs[mrec["tid"]] = types.SimpleNamespace(nontrivial={"AppClose", "Dilation:" + info["goal"]},
+                                                          schedule=[{"a": "FullStack", **info}])
+                records.append(mrec)
+            cov["full_stack_app_cases"] = nfs
+            cov["full_stack_witness_goals"] = goals_
             n = 0
             for n_ in (1, 2, 3):
                 for peer in (False, True):
